@@ -179,26 +179,30 @@ fn snap_trees(s: &Snap) -> Vec<&Vec<NodeF>> {
     }
 }
 
-/// Outcome of the next motion check recorded in `log[pos..]` for a motion ending at `to`:
-/// Some((passed, next position)) or None if the log holds no (complete) check.
-fn next_motion_outcome<K: Kind>(
-    ks: &KSpace<K>,
+/// Outcome of the motion check whose queries start at `vlog[pos]`: all validity queries that
+/// carry the same motion-check id (hook `note_motion_check`) belong to it, in whatever order the
+/// planner visits the segment; it passed iff none of them was rejected. Returns
+/// Some((passed, position after the check)) or None if no query is left.
+fn next_motion_outcome(
     vlog: &[(Vec<f64>, bool)],
-    mut pos: usize,
-    to: &[f64],
+    ids: &[u64],
+    pos: usize,
 ) -> Option<(bool, usize)> {
-    let tol = seg_tol(&ks.cfg, 0.0) + dist_tol(&ks.cfg, to, to);
-    while pos < vlog.len() {
-        let (s, ans) = &vlog[pos];
-        pos += 1;
-        if !*ans {
-            return Some((false, pos));
-        }
-        if bits_eq(s, to) || ks.d(s, to) <= tol {
-            return Some((true, pos));
-        }
+    if pos >= vlog.len() {
+        return None;
     }
-    None
+    let id = ids[pos];
+    if id % 2 == 0 {
+        // not inside a motion check (the counter is odd exactly while one runs)
+        return None;
+    }
+    let mut p = pos;
+    let mut ok = true;
+    while p < vlog.len() && ids[p] == id {
+        ok &= vlog[p].1;
+        p += 1;
+    }
+    Some((ok, p))
 }
 
 /// Reference steer: the set of acceptable (parent index, new state) pairs for sample q.
@@ -279,6 +283,7 @@ pub fn transition<K: Kind>(
         }
     }
     let vlog = &trace.rec.vlog[st.vlog.0..st.vlog.1];
+    let ids = &trace.rec.vmotion[st.vlog.0..st.vlog.1];
     let usamp = &trace.rec.samples[st.samples.0..st.samples.1];
     let gsamp = &trace.rec.goal_samples[st.goal_samples.0..st.goal_samples.1];
     // the sample of this iteration
@@ -309,8 +314,7 @@ pub fn transition<K: Kind>(
         (PlannerTag::RRT, Snap::Tree(t0), Snap::Tree(t1))
         | (PlannerTag::RRTStar, Snap::Tree(t0), Snap::Tree(t1)) => {
             let (nmin, cands) = expected_extension(ks, t0, q, case.step);
-            let to = &cands[0].1;
-            let outcome = next_motion_outcome(ks, vlog, pos, to);
+            let outcome = next_motion_outcome(vlog, ids, pos);
             let passed = outcome.map(|o| o.0).unwrap_or(false);
             if let Some((_, p)) = outcome {
                 pos = p;
@@ -389,8 +393,7 @@ pub fn transition<K: Kind>(
             let (a0, b0, a1, b1) = if grow_start { (s0, g0, s1, g1) } else { (g0, s0, g1, s1) };
             ctx.label(if grow_start { "connect:start-tree-grows-first" } else { "connect:goal-tree-grows-first" });
             let (_nmin, cands) = expected_extension(ks, a0, q, case.step);
-            let to = &cands[0].1;
-            let outcome = next_motion_outcome(ks, vlog, pos, to);
+            let outcome = next_motion_outcome(vlog, ids, pos);
             let passed = outcome.map(|o| o.0).unwrap_or(false);
             if let Some((_, p)) = outcome {
                 pos = p;
@@ -434,8 +437,7 @@ pub fn transition<K: Kind>(
             }
             // connect: tree_b extends toward new_a
             let (_n2, cands_b) = expected_extension(ks, b0, &new_a.s, case.step);
-            let to_b = &cands_b[0].1;
-            let outcome_b = next_motion_outcome(ks, vlog, pos, to_b);
+            let outcome_b = next_motion_outcome(vlog, ids, pos);
             let passed_b = outcome_b.map(|o| o.0).unwrap_or(false);
             if !passed_b {
                 if !trees_bits_eq(b0, b1) {
